@@ -514,6 +514,11 @@ C03_Live == \A c \in 1..MaxConns :
 \* ---- C04 ----
 Distinct(s) == \A a, b \in 1..Len(s) : s[a] = s[b] => a = b
 C04_RoundRobin == (Len(handles) = W /\ Len(rrWindow) = W) => Distinct(rrWindow)
+\* lemma behind the ground-truth reading of "while no worker is saturated": when the accept thread has nothing left to
+\* do, every worker in the rotation that is below its limit is marked available (so a rotation that starts from such a
+\* state skips nobody until some worker reaches its limit)
+C04_BitsTrueWhenCalm ==
+  (Quiescent /\ running) => \A i \in Workers : (InHandles(i) /\ alive[i] /\ counter[i] <= Limit) => avail[i]
 C04_SaturatedGetsNothingStep ==
   (act'.n = "ASend" /\ act'.x = "ok" /\ ~everFaulted) => Load(act'.i) < Limit
 
